@@ -534,6 +534,15 @@ def r9_reverse_pairing(ctx):
     _r(proxy(ctx, 'R9'))
 
 
+def r10_include_order(ctx):
+    """R10: the include constraint of a request is tested on every path of a disjoint combination with ispart: it accepts exactly the
+    paths that hold the listed nodes in order, counting positions from the first element (0) - otherwise every disjoint combination
+    of a constrained request is discarded and the requests fall back to routes that share links (rule shared with C11-R5)"""
+    from .c11 import r5_helpers as _r
+    from .common import proxy
+    _r(proxy(ctx, 'R10'))
+
+
 from ..memo import rule_for as _memo_rule
 
 RULES_MEMO = ('Rm.memo', _memo_rule('C12', 'candidates computed for another request would be reused'))
@@ -544,4 +553,4 @@ from ..presence import rule_for as _presence_rule
 RULES_PRESENCE = ('Rp.presence', _presence_rule('C12', 'a legal zero would be read as missing'))
 
 RULES = [('R1.acceptance', r1_acceptance), ('R2.shrink-only', r2_shrink), ('R3.must-raise', r3_raise), ('R4.cutoff', r4_cutoff),
-         ('R5.helper', r5_helper), ('R6.groups', r6_groups), RULES_MEMO, RULES_PRESENCE, ('R7.group-constraints', r7_group_constraints), ('Rn.arg-roles', rn_arg_roles), ('R8.inputs', r8_inputs), ('R9.reversed', r9_reverse_pairing)]
+         ('R5.helper', r5_helper), ('R6.groups', r6_groups), RULES_MEMO, RULES_PRESENCE, ('R7.group-constraints', r7_group_constraints), ('Rn.arg-roles', rn_arg_roles), ('R8.inputs', r8_inputs), ('R9.reversed', r9_reverse_pairing), ('R10.include-order', r10_include_order)]
